@@ -397,22 +397,29 @@ pub fn decode_c2s_lenient(c2s: &[u8]) -> (BTreeMap<u16, Vec<(usize, usize, AMQPF
 }
 
 pub fn publish_oracle(rep: &mut CaseReport, c2s: &[u8], hist: &History, frame_max: usize) {
+    publish_oracle_ext(rep, c2s, hist, frame_max, false)
+}
+
+/// `cut_short`: the session provokes the end of the connection while publishes are under way (the client
+/// answers a server frame with a connection exception): publishes may then fail, and each channel's frames
+/// may simply stop - after a whole publish, or inside the last one - but nothing else may sit inside a publish.
+pub fn publish_oracle_ext(rep: &mut CaseReport, c2s: &[u8], hist: &History, frame_max: usize, cut_short: bool) {
     let (per, corrupt) = decode_c2s_lenient(c2s);
     if let Some(why) = corrupt {
         // the stream stops being AMQP at some point (C01's concern as such): it is C02's concern too when a
         // publish that was accepted is not completely on the wire before that point
         let mut inner = CaseReport::default();
-        publish_oracle_on(&mut inner, &per, hist, frame_max, true);
+        publish_oracle_on(&mut inner, &per, hist, frame_max, true, cut_short);
         match inner.violations.iter().find(|v| v.sig != "io-thread-cancel-ok-inside-publish") {
             Some(v) => rep.violate("publish-stream-corrupt", "undecodable-before-publish-complete", format!("the client->server stream stops being decodable ({}) and before that point: {}", why, v.detail)),
             None => rep.inconclusive = Some(format!("stream not decodable ({}): C01's concern", why)),
         }
         return;
     }
-    publish_oracle_on(rep, &per, hist, frame_max, false)
+    publish_oracle_on(rep, &per, hist, frame_max, false, cut_short)
 }
 
-fn publish_oracle_on(rep: &mut CaseReport, per: &BTreeMap<u16, Vec<(usize, usize, AMQPFrame)>>, hist: &History, frame_max: usize, stream_is_corrupt: bool) {
+fn publish_oracle_on(rep: &mut CaseReport, per: &BTreeMap<u16, Vec<(usize, usize, AMQPFrame)>>, hist: &History, frame_max: usize, stream_is_corrupt: bool, cut_short: bool) {
     // publishes per channel in issue order
     let mut pubs: BTreeMap<u16, Vec<&OpRec>> = BTreeMap::new();
     let mut threads: BTreeMap<usize, Vec<&OpRec>> = BTreeMap::new();
@@ -424,14 +431,14 @@ fn publish_oracle_on(rep: &mut CaseReport, per: &BTreeMap<u16, Vec<(usize, usize
             if let Op::Publish { .. } = &o.op {
                 if o.result == OpResult::Unit {
                     pubs.entry(o.ch_id).or_default().push(o);
-                } else if o.result != OpResult::Skipped && !stream_is_corrupt {
+                } else if o.result != OpResult::Skipped && !stream_is_corrupt && !cut_short {
                     rep.violate("publish-error", "error", format!("publish {} failed: {:?}", short_op(&o.op), o.result));
                     return;
                 }
             }
         }
     }
-    for (ch, list) in pubs {
+    'channels: for (ch, list) in pubs {
         let frames = per.get(&ch).cloned().unwrap_or_default();
         let mut pos = 0usize;
         for o in list {
@@ -451,6 +458,10 @@ fn publish_oracle_on(rep: &mut CaseReport, per: &BTreeMap<u16, Vec<(usize, usize
             }
             let (i, p) = match found {
                 Some(x) => x,
+                None if cut_short => {
+                    rep.count("c02.cut_short_after_whole_publish", 1);
+                    continue 'channels;
+                }
                 None => {
                     rep.violate("publish-missing", "missing", format!("channel {}: no Basic.Publish frame for {} ({})", ch, o.mark, short_op(&o.op)));
                     return;
@@ -487,6 +498,10 @@ fn publish_oracle_on(rep: &mut CaseReport, per: &BTreeMap<u16, Vec<(usize, usize
                     }
                     h
                 }
+                None if cut_short => {
+                    rep.count("c02.cut_short_inside_publish", 1);
+                    continue 'channels;
+                }
                 other => {
                     rep.violate("publish-contiguity", "no-header", format!("channel {} publish {}: frame after Basic.Publish is {}", ch, o.mark, trunc(&format!("{:?}", other.map(|x| &x.2)), 120)));
                     return;
@@ -517,6 +532,10 @@ fn publish_oracle_on(rep: &mut CaseReport, per: &BTreeMap<u16, Vec<(usize, usize
                         got.extend_from_slice(b);
                         n_body += 1;
                         j += 1;
+                    }
+                    None if cut_short => {
+                        rep.count("c02.cut_short_inside_publish", 1);
+                        continue 'channels;
                     }
                     other => {
                         rep.violate("publish-contiguity", "body-interrupted", format!("channel {} publish {}: after {} of {} body bytes the next frame is {}", ch, o.mark, got.len(), body.len(), trunc(&format!("{:?}", other.map(|x| &x.2)), 120)));
